@@ -32,9 +32,9 @@ CLAIMED["C06"] = dict(level="exploration", ref="DESIGN.md §4 C06", technique="d
 CLAIMED["C07"] = dict(level="exploration", ref="DESIGN.md §4 C07", technique="deterministic simulation of the real downlink runtime shared by scripted consumers against a scripted remote lane; session, ordering, supersession and final-state oracles",
      text="Seeded search over arrival times of 1-4 consumers (with/without SYNC and KEEP_LINKED), their command streams, read speeds and drops, remote notification sequences (external changes, unlink), channel capacities and schedules on the real Value/MapDownlinkRuntime; each consumer must get linked, (if asked) synced with a state the lane held, every later event in order, unlinked at close; on the socket side commands arrive in order where order matters (value: totally, map: per key and across a clear), nothing is duplicated or invented, and the lane ends as if every command had been sent; with consumers attached, passing time must not stop the runtime.",
      note="remote lane and consumers are harness code (the harness frames notifications itself); one writer per map key, clears only in single-writer runs")
-CLAIMED["C11"] = dict(level="exploration", ref="DESIGN.md §4 C11", technique="deterministic simulation of the real RemoteTask (registration, incoming and outgoing tasks) over a simulated byte pipe with short reads/writes and cuts, ratchet framing on both ends, scripted agents, downlinks and web socket peers; round-trip, routing, per-source order and attachment-liveness oracles over the recorded history",
+CLAIMED["C11"] = dict(level="exploration", ref="DESIGN.md §4 C11", technique="deterministic simulation of the real RemoteTask (registration, incoming and outgoing tasks) over a simulated byte pipe with short reads/writes and cuts, ratchet framing on both ends, scripted agents, downlinks and web socket peers; round-trip, routing, per-source order and attachment-liveness oracles over the recorded history; real threads over the MultiReader multiplexer under the shuttle scheduler (random + PCT)",
      text="Seeded search over envelope kinds, adversarial node/lane strings and bodies, 1-8 agents and downlinks attaching to, writing to and detaching from one socket, agent stops and restarts, unknown nodes, invalid frames, socket cuts, buffer sizes, short reads and schedules, in three topologies (two real RemoteTasks back to back; real server task against a scripted client; real client task against a scripted server); every envelope received equals one sent by a source that can reach that endpoint (kind, node, lane exactly, body byte-exactly), agents only get their node and downlinks only their (node, lane), each source's envelopes arrive in order without duplicates and completely while the addressee stays attached, markers of injected invalid frames never reach any endpoint, no panic, and an attachment requested on a live socket completes.",
-     note="web socket handshake skipped (WebSocket::from_upgraded); pipe, agents, downlinks, resolver and scripted peer are harness code; termination after a cut is counted, not judged; one recorded deadlock is reported as KNOWN-FINDING")
+     note="web socket handshake skipped (WebSocket::from_upgraded); pipe, agents, downlinks, resolver and scripted peer are harness code; termination after a cut is counted, not judged; one recorded deadlock is reported as KNOWN-FINDING; the multiplexer is additionally driven by real producer threads against the polling consumer under the shuttle scheduler (engine mreader-shuttle)")
 CLAIMED["C13"] = dict(level="fault_enumeration", ref="DESIGN.md §4 C13", technique="deterministic op-sequence simulation of both stores against a reference map, with injected reopen, SIGKILL of a real writer process at drawn operation boundaries and node-store hand-over",
      text="Seeded op sequences (id_for/put/get/delete/update/remove/clear/read_map over 1-3 agents x 1-4 items with adversarial names and keys) on the real in-memory store (incl. Idle/InUse hand-over, abandoned and contended requests) and on real RocksDB (incl. reopen and SIGKILL of a child writer process after a drawn acknowledged operation); after every operation and every boundary each read must equal the reference model, ids must be stable and collision free, every acknowledged operation must survive.",
      note="RocksDB, its background threads and the file system are real, not simulated; kill points are operation boundaries; no disk-fault injection below RocksDB")
@@ -80,6 +80,7 @@ manifest = {
  "engines": [
    {"name": "vote-shuttle", "path": "shuttle/", "serves_properties": ["C17"], "kind_free_text": "shuttle 0.9.3 controlled scheduler (seeded RandomScheduler and PctScheduler, replayable schedule files) over the real timeout_coord source compiled with the guarded atomics hook"},
    {"name": "report-shuttle", "path": "shuttle/", "serves_properties": ["C20"], "kind_free_text": "shuttle 0.9.3 controlled scheduler (seeded RandomScheduler and PctScheduler, replayable schedule files) over the real agent::reporting source compiled with the guarded atomics hook: counting threads against snapshotting threads, conservation of counts"},
+   {"name": "mreader-shuttle", "path": "shuttle/", "serves_properties": ["C11"], "kind_free_text": "shuttle 0.9.3 controlled scheduler (seeded RandomScheduler and PctScheduler, replayable schedule files) over the real MultiReader source compiled with the guarded atomics hook: producer threads against the polling consumer, no lost wake-up (deadlock detection), completeness and per-source order"},
    {"name": "simctl", "path": "sim/", "serves_properties": sorted(CLAIMED.keys()), "kind_free_text": "hand-written deterministic simulator: seeded executor over the product's top-level futures inside a paused, seeded current-thread tokio runtime; scripted peers over the product's byte channels; fault plan; history oracles; replay + minimisation"},
  ],
  "checks": [],
